@@ -271,6 +271,39 @@ pub fn generate(seed: u64, tier: &str, sink: &mut Sink) {
             }
         }
     }
+    // histories: the same host name is dialled again and the resolver's answer has changed in between. Every
+    // connection is decided by the addresses resolved for IT (seed C17-seed8: a remembered winner): the socket
+    // is connected to one of them, in the order of the rule, whatever an earlier connection to that name did.
+    {
+        let hits = Arc::new(Mutex::new(vec![]));
+        let a6 = acceptor(true, 0, hits.clone());
+        let a4 = acceptor(false, 1, hits.clone());
+        let r6 = closed_port(true);
+        let b6 = acceptor(true, 2, hits.clone());
+        let b4 = acceptor(false, 3, hits.clone());
+        let host = "history.test";
+        let rounds: Vec<(&str, Vec<SocketAddr>, usize)> = vec![
+            ("first: v6 refuses, v4 accepts", vec![r6, a4], 1),
+            ("again: the v6 address accepts now, it comes first", vec![a6, a4], 0),
+            ("again, resolver order reversed within the answer", vec![a4, a6], 0),
+            ("moved: the name resolves to two other machines, the old ones are still up", vec![b6, b4], 2),
+            ("moved back", vec![a4, a6], 0),
+        ];
+        for (k, (what, addrs, want)) in rounds.iter().enumerate() {
+            attohttpc::verif_hooks::set_resolver_override(host, addrs.clone());
+            let res = attohttpc::get(format!("http://{}:1/", host)).connect_timeout(Duration::from_millis(CONNECT_TIMEOUT_MS)).read_timeout(Duration::from_secs(2)).send();
+            attohttpc::verif_hooks::clear_resolver_overrides();
+            let got: Option<usize> = res.as_ref().ok().and_then(|r| r.headers().get("x-listener")).and_then(|v| v.to_str().ok()).and_then(|s| s.parse().ok());
+            let ids: Vec<usize> = addrs.iter().map(|a| if *a == a6 { 0 } else if *a == a4 { 1 } else if *a == b6 { 2 } else if *a == b4 { 3 } else { 99 }).collect();
+            let o = match got {
+                Some(g) if g == *want => Ok(()),
+                Some(g) if !ids.contains(&g) => Err(("connected-outside-the-resolved-set".to_string(), format!("round {} ({}): answered by listener #{}, the name resolves to listeners {:?}", k, what, g, ids))),
+                Some(g) => Err(("wrong-order".to_string(), format!("round {} ({}): answered by listener #{}, the rule gives #{} (resolved: {:?})", k, what, g, want, ids))),
+                None => Err(("missed-reachable-address".to_string(), format!("round {} ({}): {:?}", k, what, res.err().map(|e| e.to_string())))),
+            };
+            sink.push(Case { tags: vec!["kind=history".into(), format!("round={}", k)], op: format!("nop history-{}", k), impl_line: "nop".into(), oracle: o });
+        }
+    }
     // run in parallel worker threads (the resolver override is thread-local)
     let nworkers = 12;
     let cfgs = Arc::new(cfgs);
